@@ -74,18 +74,40 @@ class PyBytesIO:
         self.parts = []
         self.spooled = spooled
         self.pos = 0
+        self.at_end = True          # no seek() yet: every write appends
         self.closed = False
         PyBytesIO.instances.append(self)
         if initial:
             self.write(initial)
 
-    # -- write side: used while spooling
+    # -- write side: used while spooling.  Writing at the end (the only thing the pinned code does) appends the part
+    # as it is (parts may be opaque); after a seek() the write is positional like the real file object's
     def write(self, part):
-        if isinstance(part, list):
-            self.parts.extend(part)
-        else:
-            self.parts.append(part)
+        if self.at_end:
+            if isinstance(part, list):
+                self.parts.extend(part)
+            else:
+                self.parts.append(part)
+            return len(part)
+        if not len(part):
+            return 0
+        data = self._flat()
+        if self.pos > len(data):
+            data = data + b"\0" * (self.pos - len(data))
+        data = data[:self.pos] + bytes(part) + data[self.pos + len(part):]
+        self.parts = [data]
+        self.pos += len(part)
         return len(part)
+
+    def truncate(self, size=None):
+        if size is None:
+            size = self.pos
+        data = self._flat()
+        if size <= len(data):
+            self.parts = [data[:size]]
+        elif self.spooled:               # a real file grows, io.BytesIO does not
+            self.parts = [data + b"\0" * (size - len(data))]
+        return size
 
     def getvalue(self):
         if self.parts and not isinstance(self.parts[0], (bytes, bytearray)):
@@ -97,6 +119,7 @@ class PyBytesIO:
         return b"".join(self.parts)
 
     def seek(self, pos, whence=0):
+        self.at_end = False
         if whence == 0:
             self.pos = pos
         elif whence == 1:
@@ -128,8 +151,58 @@ def spool_file(*a, **kw):
     return PyBytesIO(spooled=True)
 
 
+def _file_value(fp):
+    pos = fp.tell()
+    fp.seek(0)
+    data = fp.read()
+    fp.seek(pos)
+    return data
+
+
+def validate_body_io():
+    """differential check of PyBytesIO against io.BytesIO / a real temporary file on write/seek/truncate/read programs"""
+    import io
+    import random
+    import tempfile
+    rnd = random.Random(7)
+    for it in range(240):
+        spooled = it % 2 == 1
+        real, stub = (tempfile.TemporaryFile() if spooled else io.BytesIO()), PyBytesIO(spooled=spooled)
+        if spooled:
+            real.getvalue = lambda real=real: _file_value(real)
+        stub.instances.pop()
+        for _ in range(rnd.randint(1, 8)):
+            op = rnd.choice(["write", "write", "seek", "read", "truncate", "getvalue", "seek2"])
+            if op == "write":
+                d = bytes(rnd.randrange(97, 123) for _ in range(rnd.randint(0, 5)))
+                ra, sa = real.write(d), stub.write(d)
+                if stub.at_end:                 # the stub keeps its read position apart while appending
+                    real.seek(0, 2)
+                    continue
+            elif op == "seek":
+                n = rnd.randint(0, 9)
+                ra, sa = real.seek(n), stub.seek(n)
+            elif op == "seek2":
+                ra, sa = real.seek(0, 2), stub.seek(0, 2)
+            elif op == "read":
+                if stub.at_end:
+                    continue
+                n = rnd.choice([-1, 0, 1, 3, 100])
+                ra, sa = real.read(n), stub.read(n)
+            elif op == "truncate":
+                if stub.at_end:
+                    continue
+                ra, sa = real.truncate(), stub.truncate()
+            else:
+                ra, sa = real.getvalue(), stub.getvalue()
+            assert ra == sa, ("PyBytesIO differs from io.BytesIO", op, ra, sa)
+        assert real.getvalue() == stub.getvalue()
+        real.close()
+
+
 def install_body_io():
     """Rebind BytesIO/TemporaryFile inside ombott.request_pkg.body_mixin (this process only)."""
+    validate_body_io()
     from ombott.request_pkg import body_mixin
     body_mixin.BytesIO = PyBytesIO
     body_mixin.TemporaryFile = spool_file
